@@ -125,25 +125,69 @@ def origin_arg(mir, body, l, depth, seen):
     return out
 
 
+def root_place(body, op, depth=10):
+    """(root local, field/variant path) an operand's value is read from, through copies, moves, references and derefs"""
+    p = op_place(op)
+    if p is None:
+        return None
+    path = []
+    cur = p
+    for _ in range(depth):
+        names = [(e.get('dc') or e.get('n') or ('#%s' % e.get('f'))) for e in cur['p'] if isinstance(e, dict)]
+        path = names + path
+        ds = body.defs().get(cur['l'], [])
+        if len(ds) != 1 or ds[0][0] != 'stmt':
+            return (cur['l'], tuple(path))
+        rv = ds[0][3]['rv']
+        if rv['k'] == 'use':
+            nxt = op_place(rv['op'])
+        elif rv['k'] in ('ref', 'copyderef'):
+            nxt = rv['place']
+        else:
+            return (cur['l'], tuple(path))
+        if nxt is None:
+            return (cur['l'], tuple(path))
+        cur = nxt
+    return (cur['l'], tuple(path))
+
+
 def finite_checked(mir, body, bb, op):
-    """is the construction in block bb dominated by the true edge of `if is_finite(x)` on the same value x?"""
-    tgt = mirq.chase_op(body, op)
-    def same(a):
-        return mirq.chase_op(body, a) == tgt or (op_local(a) is not None and op_local(a) == op_local(op))
+    """is the construction in block bb dominated by the edge on which `is_finite(x)` is true, for the same value x (same root
+    place)?  The test may be negated, moved, or a match guard; what counts is the edge."""
+    tgt = root_place(body, op)
     for cb, t in body.calls():
         if strip_generics(t.get('callee') or '') not in IS_FINITE:
             continue
-        if not same(t['args'][0]):
+        if tgt is None or root_place(body, t['args'][0]) != tgt:
             continue
-        nt = body.term(t['target'])
-        if nt['k'] != 'switch' or op_local(nt['discr']) != t['dest']['l']:
-            continue
-        false_targets = [x for v, x in nt['targets'] if v == '0']
-        true_bb = nt['otherwise']
-        if true_bb in false_targets:
-            continue
-        if mirq.dominates(body, true_bb, bb) and len(body.preds()[true_bb]) == 1:
-            return True
+        # follow Not / plain moves from the result to the switch that tests it
+        cur = t['dest']['l']
+        negs = 0
+        for _ in range(6):
+            sws = [i for i in range(len(body.blocks)) if body.term(i)['k'] == 'switch' and op_local(body.term(i)['discr']) == cur]
+            if sws:
+                nt = body.term(sws[0])
+                false_targets = [x for v, x in nt['targets'] if v == '0']
+                true_bb = nt['otherwise']
+                if not false_targets or true_bb in false_targets:
+                    break
+                finite_edge = true_bb if negs % 2 == 0 else false_targets[0]
+                other = false_targets[0] if negs % 2 == 0 else true_bb
+                # dominated by the finite edge and not reachable from the other one without passing it
+                if mirq.dominates(body, finite_edge, bb) and bb not in body.reachable(other, avoid=[finite_edge]):
+                    return True
+                break
+            nxt = None
+            for i, j, s in body.stmts():
+                if s['k'] == 'assign' and not s['place']['p']:
+                    if s['rv']['k'] == 'un' and s['rv']['op'] == 'Not' and op_local(s['rv']['a']) == cur:
+                        nxt = s['place']['l']
+                        negs += 1
+                    elif s['rv']['k'] == 'use' and op_local(s['rv']['op']) == cur:
+                        nxt = s['place']['l']
+            if nxt is None:
+                break
+            cur = nxt
     return False
 
 
